@@ -101,3 +101,59 @@ def run(prog, rule="R-OPTSTORE"):
     res.counts["owners_seen"] = sorted(owners_seen)
     res.floor("owner functions with a publishing site", len(owners_seen), 5)
     return res
+
+
+def run_solvedgate(prog, driver="mpq_ILLsimplex", rule="R-SOLVEDGATE"):
+    """the simplex driver hands out a definitive status (OPTIMAL / INFEASIBLE / UNBOUNDED) through its status parameter only on the branch
+    on which its pivot loop ended normally: every such store is dominated by the true edge of `solstatus == ILL_LP_SOLVED`.  The flags in
+    lp->basisstat that select among the three are only meaningful there: after an iteration or time limit they describe the basis of
+    some earlier test (the starting basis of phase I, for instance), so 'limit reached but the optimal flag is set' is not OPTIMAL."""
+    from ..core import dominators, walk
+    from ..cond import atoms, SWAP
+    import collections
+    res = RuleResult(rule, "every store of a definitive status through the status parameter of the simplex driver is dominated by solstatus == ILL_LP_SOLVED")
+    f = prog.require_fn(driver)
+    dom, succ = dominators(prog, f)
+    preds = collections.defaultdict(set)
+    for a, ss in succ.items():
+        for s in ss:
+            preds[s].add(a)
+    gate_edges = set()
+    for bid in f.live:
+        c = f.blocks[bid].get("c")
+        if c is None:
+            continue
+        ss = prog.live_succs(f, f.blocks[bid])
+        if len(ss) != 2:
+            continue
+        for idx, s_ in enumerate(ss):
+            if s_ is None or preds[s_] != {bid}:
+                continue
+            for l, op, r in atoms(c, idx == 0):
+                for a, b_, o in ((l, r, op), (r, l, SWAP[op])):
+                    if o == "==" and isinstance(b_, list) and b_ and b_[0] == "n" and b_[2] == "ILL_LP_SOLVED" and "solstatus" in show(a):
+                        gate_edges.add(s_)
+    if not gate_edges:
+        raise AnalysisBroken("%s: no branch on solstatus == ILL_LP_SOLVED found in %s" % (rule, driver))
+    n = 0
+    for b, i, e in f.elements():
+        if e[0] != "A" or e[1][1] != "=":
+            continue
+        l = strip(e[1][2])
+        if not (isinstance(l, list) and l and l[0] == "u" and l[1] == "*" and isinstance(strip(l[2]), list) and strip(l[2])[0] == "v" and str(strip(l[2])[1]).startswith("p")):
+            continue
+        names = set(_consts(e[1][3])) & DEFINITIVE
+        if not names:
+            continue
+        n += 1
+        res.obligations += 1
+        res.nontrivial += 1
+        if any(g == b["id"] or g in dom.get(b["id"], ()) for g in gate_edges):
+            res.sample({"site": "%s %s: %s" % (short_loc(e[2]), f.name, show(e[1])[:60]), "verdict": "under solstatus == ILL_LP_SOLVED"}, limit=6)
+        else:
+            res.violations.append(Violation(rule, "%s|%s stored outside the normal-termination branch" % (f.name.replace("mpq_", ""), "/".join(sorted(names))), f.name, short_loc(e[2]),
+                                            "%s hands out a definitive status on a branch that is not dominated by solstatus == ILL_LP_SOLVED: the flags of lp->basisstat "
+                                            "it relies on belong to an earlier feasibility test" % show(e[1])[:80]))
+    res.counts["definitive_status_stores"] = n
+    res.floor("definitive status stores in the simplex driver", n, 3)
+    return res
